@@ -49,6 +49,9 @@ def describe_src(v):
     return "none" if v is None else "spec:" + str(v.get("class_path") if hasattr(v, "get") else v)
 
 
+CHAIN = {"accepted": 0, "refused": 0}
+
+
 def build(shape, eoe=False):
     p = ArgumentParser(exit_on_error=eoe, prog="app", env_prefix="APP")
     p.add_argument("--cfg", action=ActionConfigFile)
@@ -86,6 +89,15 @@ def build(shape, eoe=False):
         p.add_argument("--w", type=Any)
         p.link_arguments("g", "w")
         links.append((["g"], "w", "group-as-is", "plain"))
+    if "group_src" in shape and "chain_via_group" in shape:
+        # a target inside a group that is itself the source of other links: a chain, refused like a direct one - or, if it is
+        # accepted, every target still equals the function of the *final* values of its sources
+        try:
+            p.link_arguments("a", "g.x")
+            links.append((["a"], "g.x", None, "plain"))
+            CHAIN["accepted"] += 1
+        except ValueError:
+            CHAIN["refused"] += 1
     if "class_target" in shape:
         p.add_argument("--m", type=zoo.Base, default=lazy_instance(zoo.SubA, a=7))
         p.link_arguments("a", "m.init_args.a")
@@ -230,6 +242,8 @@ def check_dump(ctx, p, links, cfg, w):
 
 def case_flat(ctx, i, rng):
     feats = [f for f in ["plain", "fn", "multi", "group_src", "class_target", "list_target", "class_src", "req_target"] if rng.random() < 0.55]
+    if "group_src" in feats and rng.random() < 0.3:
+        feats.append("chain_via_group")
     if not any(f in feats for f in ("plain", "multi", "group_src", "class_target", "list_target", "class_src")):
         feats.append("plain")
     shape = set(feats)
@@ -241,6 +255,11 @@ def case_flat(ctx, i, rng):
     # source values through a random mix of channels
     srcvals = {"a": rng.randrange(1, 90), "g.x": rng.randrange(1, 90), "g.y": rng.randrange(1, 90)}
     argv, cfgd, env = [], {}, {}
+    if any(t == "g.x" for _, t, _, _ in links):
+        del srcvals["g.x"]  # the chain was accepted: g.x is a link target now and is not given by the user
+        ctx.count("st.chain_through_group_source.accepted")
+    elif "chain_via_group" in shape:
+        ctx.count("st.chain_through_group_source.refused")
     for k, v in srcvals.items():
         r = rng.random()
         if r < 0.35:
